@@ -16,6 +16,7 @@
 
 #include <algorithm>
 #include <fstream>
+#include <limits>
 #include <unordered_map>
 
 #include <cctype>                    // to get std::tolower
@@ -586,7 +587,10 @@ bool read_number(const char *in, Option<T> &out)
    char       *c;
    const auto val = std::strtol(in, &c, 10);
 
-   if (  *c == 0
+   if (  c != in                          // an empty string is not a number
+      && *c == 0
+      && val >= static_cast<long>(std::numeric_limits<T>::lowest())
+      && val <= static_cast<long>(std::numeric_limits<T>::max())
       && out.validate(val))
    {
       out.m_val = static_cast<T>(val);
